@@ -41,3 +41,9 @@ claim("C16",
   "Decides for every IMSI/index at once that the SUPI is imsi-<IMSI+index zero-padded to the IMSI's own width> and the RAN-UE-NGAP-ID (f(IMSI)+index) mod M, M >= 10000, with main passing the loop index - the structural reason identities are pairwise distinct and stay in the PLMN; that the context constructor stores its arguments unmodified and nobody else writes them; that K/OPc/OP land in their fields; and that the advertised capability bits are exactly those of the algorithms the context holds.",
   "Level 'other'. Not decided: MSIN overflow (outside the quantifier), Sprintf/Atoi semantics (trusted).",
   "DESIGN.md §5 C16")
+
+claim("C11",
+  "bit-provenance abstract interpretation of the nibble packing (per MNC-length branch and per MSIN-loop arm), interval analysis of the digit conversion, structural sibling comparison with the library's PlmnIDToNas, argument-role checks for the PLMN flow into NG Setup / TestPlmn",
+  "Decides for all IMSIs at once which input digit lands in which nibble of PLMN octets 1..3 for both MNC lengths, where the MSIN starts, how MSIN digit pairs and a final odd digit are packed, the fixed header octets and that Len is the final buffer length; that the library's own PLMN conversion places the digits identically; and that the PLMN announced at NG Setup is octets 1..3 of the same encoder's output and is what TestPlmn remembers. Digit placement is the entire content of these encodings, so placement + digit-value mapping is the property for well-formed IMSIs.",
+  "Level 'other'. Restructured encoders (e.g. table/loop driven packing) are reported as undecided, not as violations. Not decided: non-decimal input characters.",
+  "DESIGN.md §5 C11")
